@@ -63,32 +63,38 @@ theorem ninv_allDone {wf : Wf} {w : World} : ∀ (ps : List NodeId) {ns : NSMap}
     NInv wf w (allDone w ns ps).2
   | [], _, h => h
   | p :: ps, ns, h => by
-    unfold allDone
-    simp only [nodeDone]
-    split
-    · exact ninv_allDone ps (ninv_upd h p)
-    · exact ninv_upd h p
+    show NInv wf w (if (nodeDone w ns p).1 = true then allDone w (nodeDone w ns p).2 ps
+      else (false, (nodeDone w ns p).2)).2
+    by_cases hd : (nodeDone w ns p).1 = true
+    · rw [if_pos hd]; exact ninv_allDone ps (ninv_upd h p)
+    · rw [if_neg hd]; exact ninv_upd h p
 
 theorem ninv_anyNotDone {wf : Wf} {w : World} : ∀ (l : List NodeId) {ns : NSMap}, NInv wf w ns →
     NInv wf w (anyNotDone w ns l).2
   | [], _, h => h
   | n :: l, ns, h => by
-    unfold anyNotDone
-    simp only [nodeDone]
-    split
-    · exact ninv_anyNotDone l (ninv_upd h n)
-    · exact ninv_upd h n
+    show NInv wf w (if (nodeDone w ns n).1 = true then anyNotDone w (nodeDone w ns n).2 l
+      else (true, (nodeDone w ns n).2)).2
+    by_cases hd : (nodeDone w ns n).1 = true
+    · rw [if_pos hd]; exact ninv_anyNotDone l (ninv_upd h n)
+    · rw [if_neg hd]; exact ninv_upd h n
 
 theorem allDone_of_fix {w : World} : ∀ (ps : List NodeId) {ns : NSMap}, (∀ p, p ∈ ps → Fix w (ns.get p)) →
     (allDone w ns ps).2 = ns ∧ ((allDone w ns ps).1 = true ↔ ∀ p, p ∈ ps → (ns.get p).isDone = true)
   | [], _, _ => by simp [allDone]
   | p :: ps, ns, hf => by
-    unfold allDone
-    simp only [nodeDone]
     have hp : upd w ns p = ns := upd_of_fix (hf p (by simp))
-    rw [hp]
-    split
-    · rename_i hd
+    have h2 : (nodeDone w ns p).2 = ns := hp
+    have h1 : (nodeDone w ns p).1 = (ns.get p).isDone := by
+      show ((upd w ns p).get p).isDone = _
+      rw [hp]
+    show (if (nodeDone w ns p).1 = true then allDone w (nodeDone w ns p).2 ps
+      else (false, (nodeDone w ns p).2)).2 = ns ∧
+      ((if (nodeDone w ns p).1 = true then allDone w (nodeDone w ns p).2 ps
+      else (false, (nodeDone w ns p).2)).1 = true ↔ _)
+    rw [h2, h1]
+    by_cases hd : (ns.get p).isDone = true
+    · rw [if_pos hd]
       obtain ⟨h1, h2⟩ := allDone_of_fix ps (fun q hq => hf q (by simp [hq]))
       refine ⟨h1, ?_⟩
       rw [h2]
@@ -98,7 +104,7 @@ theorem allDone_of_fix {w : World} : ∀ (ps : List NodeId) {ns : NSMap}, (∀ p
         · exact hd
         · exact a q hq
       · intro a q hq; exact a q (by simp [hq])
-    · rename_i hd
+    · rw [if_neg hd]
       refine ⟨rfl, ?_⟩
       constructor
       · intro a; exact absurd a (by simp)
@@ -111,7 +117,6 @@ def startedState (cks : List Ck) : NS := ⟨some [], List.range cks.length, [], 
 
 theorem linv_startedState (w : World) (cks : List Ck) : LInv w (startedState cks) := by
   constructor <;> simp [startedState]
-  · intro i hi; exact hi
 
 theorem range_filter_not_mem (n : Nat) :
     (List.range n).filter (fun i => !(List.range n).contains i) = [] := by
@@ -236,7 +241,7 @@ theorem nodeRunnable_spec {wf : Wf} {w : World} {ns : NSMap} {n : NodeId} (h : N
           · intro hu; simp [startedState] at hu
         · intro m hm; exact setN_get_ne _ _ hm
         · rw [setN_get_same]
-        · intro hs; exact absurd hs (by simp)
+        · intro hs; rw [hst] at hs; exact absurd hs (by simp)
         · intro _; rw [setN_get_same]; simp [startedState]
         · intro _; right; right; rw [setN_get_same]
       · -- already started earlier: `blocked` is empty, nothing changes
